@@ -26,8 +26,12 @@ RULES = {
     "R6": "integer bindings are looked up by presence, never by truthiness: a value taken from a `Mapping[str, int]` "
     "parameter (bindings[...] / bindings.get(...)) is not used as an operand of and/or or as a bare condition - a "
     "binding of 0 (an empty dimension) is falsy and would be treated as absent",
+    "R8": "a shape delegates to every symbolic dimension: in the element-wise methods of Shape that have a counterpart on SymbolicDim "
+    "(evaluate, simplify, free_symbols), each symbolic dimension goes through `dim.<method>(…)` - the branch for SymbolicDim neither "
+    "hands the dimension on unchanged nor leaves the iteration before the call: a partial binding has to be substituted into the "
+    "dimension now (the residual is what a later binding completes), a dimension that is passed through keeps its unbound form",
 }
-FLOORS = {"R1": 6, "R2": 3, "R3": 3, "R4": 6, "R5": 18, "R6": 2, "R7": 15}
+FLOORS = {"R1": 6, "R2": 3, "R3": 3, "R4": 6, "R5": 18, "R6": 2, "R7": 15, "R8": 3}
 EXPLANATION = (
     "Derives the printer-side vocabulary from the sympy constructors called in SymbolicDim's methods and the "
     "parser-side grammar (tiers, tokens, associativity, operator→SymPy form) from the recursive-descent parser's "
@@ -661,7 +665,37 @@ def rule_r7(ctx):
     ctx.require(n >= 15, f"only {n} value-returning symbolic functions found")
 
 
+def rule_r8(ctx):
+    shape = ctx.repo.cls("onnx_ir._core:Shape")
+    sd = ctx.repo.cls("onnx_ir._core:SymbolicDim")
+    ctx.require(shape is not None and sd is not None, "Shape / SymbolicDim not found")
+    n = 0
+    for name, f in shape.methods.items():
+        if name.startswith("_") or name not in sd.methods or isinstance(f.node, ast.Lambda):
+            continue
+        for lp in (x for x in own_nodes(f.node) if isinstance(x, ast.For) and isinstance(x.target, ast.Name)):
+            d = lp.target.id
+            # the branch for symbolic dimensions: `if isinstance(d, SymbolicDim):` (possibly an elif)
+            for br in (x for x in ast.walk(lp) if isinstance(x, ast.If) and isinstance(x.test, ast.Call) and dotted_of(x.test.func) == "isinstance"
+                       and len(x.test.args) == 2 and norm(x.test.args[0]) == d and "SymbolicDim" in norm(x.test.args[1])):
+                n += 1
+                deleg = [c for st in br.body for c in ast.walk(st) if isinstance(c, ast.Call) and isinstance(c.func, ast.Attribute) and c.func.attr == name and norm(c.func.value) == d]
+                bare = [c for st in br.body for c in ast.walk(st) if isinstance(c, ast.Call) and isinstance(c.func, ast.Attribute) and c.func.attr in ("append", "add", "extend", "update")
+                        and any(isinstance(a, ast.Name) and a.id == d for a in c.args)]
+                exits = [x for st in br.body for x in ast.walk(st) if isinstance(x, (ast.Continue, ast.Break, ast.Return))]
+                cond = [x for st in br.body for x in ast.walk(st) if isinstance(x, (ast.If, ast.IfExp)) and any(c is y for c in deleg for y in ast.walk(x))]
+                bad = (bare or exits or cond or ([] if deleg else [br]))
+                ctx.check("R8", f"Shape.{name}: every symbolic dimension goes through {d}.{name}(…)", not bad, f, bad[0] if bad else br,
+                          f"`{norm(bad[0])[:70] if bad else ''}`: a symbolic dimension can leave Shape.{name} without `{d}.{name}(…)` having been applied to it - with a partial "
+                          "binding the bound symbols are not substituted, so the shape that comes back still carries them and a later binding of the remaining symbols "
+                          "gives a symbolic result (or another number) instead of the value of the fully bound expression",
+                          how="SymbolicDim branch of the per-dimension loop: one unconditional call of the same-named SymbolicDim method, no bare hand-over, no early exit",
+                          construct=f"symbolic dimension bypasses SymbolicDim.{name} in Shape.{name}")
+    ctx.require(n >= 3, f"only {n} per-dimension delegations found in Shape (evaluate, simplify, free_symbols expected)")
+
+
 def run(ctx):
+    rule_r8(ctx)
     rule_r7(ctx)
     rule_r6(ctx)
     rule_r1(ctx)
